@@ -20,54 +20,67 @@ Record world := {
   w_log : list text;             (* most recent first *)
   w_handles : list op;
   w_waits : N;                   (* time advances spent waiting inside the current operation *)
-  w_envok : bool                 (* ghost: every resumed CONNACK so far left room for the publishes carried over *) }.
+  w_envok : bool;                (* ghost: every resumed CONNACK so far left room for the publishes carried over *)
+  w_wire : bytes;                (* ghost: every byte the current transport has accepted, in order *)
+  w_poison : bool                (* ghost: an operation that is not cancel-safe (QoS 0 publish, disconnect) was dropped
+                                    in the middle of its packet, or disconnect() ran while a queued packet was half
+                                    written — the two ways a packet can start inside another one (C01 K01b/K01c) *) }.
 
 Definition upd_sess (w : world) (s : session) : world :=
   {| w_sess := s; w_conn := w_conn w; w_live := w_live w; w_event := w_event w; w_now := w_now w; w_inq := w_inq w;
      w_last_arrival := w_last_arrival w; w_txbuf := w_txbuf w; w_script := w_script w; w_broker := w_broker w;
-     w_log := w_log w; w_handles := w_handles w; w_waits := w_waits w; w_envok := w_envok w |}.
+     w_log := w_log w; w_handles := w_handles w; w_waits := w_waits w; w_envok := w_envok w; w_wire := w_wire w; w_poison := w_poison w |}.
 Definition upd_live (w : world) (conn live : bool) (ev : N) : world :=
   {| w_sess := w_sess w; w_conn := conn; w_live := live; w_event := ev; w_now := w_now w; w_inq := w_inq w;
      w_last_arrival := w_last_arrival w; w_txbuf := w_txbuf w; w_script := w_script w; w_broker := w_broker w;
-     w_log := w_log w; w_handles := w_handles w; w_waits := w_waits w; w_envok := w_envok w |}.
+     w_log := w_log w; w_handles := w_handles w; w_waits := w_waits w; w_envok := w_envok w; w_wire := w_wire w; w_poison := w_poison w |}.
 Definition upd_log (w : world) (l : text) : world :=
   {| w_sess := w_sess w; w_conn := w_conn w; w_live := w_live w; w_event := w_event w; w_now := w_now w; w_inq := w_inq w;
      w_last_arrival := w_last_arrival w; w_txbuf := w_txbuf w; w_script := w_script w; w_broker := w_broker w;
-     w_log := l :: w_log w; w_handles := w_handles w; w_waits := w_waits w; w_envok := w_envok w |}.
+     w_log := l :: w_log w; w_handles := w_handles w; w_waits := w_waits w; w_envok := w_envok w; w_wire := w_wire w; w_poison := w_poison w |}.
 Definition upd_script (w : world) (sc : list (N * N)) : world :=
   {| w_sess := w_sess w; w_conn := w_conn w; w_live := w_live w; w_event := w_event w; w_now := w_now w; w_inq := w_inq w;
      w_last_arrival := w_last_arrival w; w_txbuf := w_txbuf w; w_script := sc; w_broker := w_broker w;
-     w_log := w_log w; w_handles := w_handles w; w_waits := w_waits w; w_envok := w_envok w |}.
+     w_log := w_log w; w_handles := w_handles w; w_waits := w_waits w; w_envok := w_envok w; w_wire := w_wire w; w_poison := w_poison w |}.
 Definition upd_now (w : world) (t : N) : world :=
   {| w_sess := w_sess w; w_conn := w_conn w; w_live := w_live w; w_event := w_event w; w_now := t; w_inq := w_inq w;
      w_last_arrival := w_last_arrival w; w_txbuf := w_txbuf w; w_script := w_script w; w_broker := w_broker w;
-     w_log := w_log w; w_handles := w_handles w; w_waits := w_waits w; w_envok := w_envok w |}.
+     w_log := w_log w; w_handles := w_handles w; w_waits := w_waits w; w_envok := w_envok w; w_wire := w_wire w; w_poison := w_poison w |}.
 Definition upd_inq (w : world) (q : list (N * bytes)) (last : N) : world :=
   {| w_sess := w_sess w; w_conn := w_conn w; w_live := w_live w; w_event := w_event w; w_now := w_now w; w_inq := q;
      w_last_arrival := last; w_txbuf := w_txbuf w; w_script := w_script w; w_broker := w_broker w;
-     w_log := w_log w; w_handles := w_handles w; w_waits := w_waits w; w_envok := w_envok w |}.
+     w_log := w_log w; w_handles := w_handles w; w_waits := w_waits w; w_envok := w_envok w; w_wire := w_wire w; w_poison := w_poison w |}.
 Definition upd_txbuf (w : world) (b : bytes) : world :=
   {| w_sess := w_sess w; w_conn := w_conn w; w_live := w_live w; w_event := w_event w; w_now := w_now w; w_inq := w_inq w;
      w_last_arrival := w_last_arrival w; w_txbuf := b; w_script := w_script w; w_broker := w_broker w;
-     w_log := w_log w; w_handles := w_handles w; w_waits := w_waits w; w_envok := w_envok w |}.
+     w_log := w_log w; w_handles := w_handles w; w_waits := w_waits w; w_envok := w_envok w; w_wire := w_wire w; w_poison := w_poison w |}.
 Definition upd_broker (w : world) (m : N) : world :=
   {| w_sess := w_sess w; w_conn := w_conn w; w_live := w_live w; w_event := w_event w; w_now := w_now w; w_inq := w_inq w;
      w_last_arrival := w_last_arrival w; w_txbuf := w_txbuf w; w_script := w_script w; w_broker := m;
-     w_log := w_log w; w_handles := w_handles w; w_waits := w_waits w; w_envok := w_envok w |}.
+     w_log := w_log w; w_handles := w_handles w; w_waits := w_waits w; w_envok := w_envok w; w_wire := w_wire w; w_poison := w_poison w |}.
 Definition upd_handles (w : world) (h : list op) : world :=
   {| w_sess := w_sess w; w_conn := w_conn w; w_live := w_live w; w_event := w_event w; w_now := w_now w; w_inq := w_inq w;
      w_last_arrival := w_last_arrival w; w_txbuf := w_txbuf w; w_script := w_script w; w_broker := w_broker w;
-     w_log := w_log w; w_handles := h; w_waits := w_waits w; w_envok := w_envok w |}.
+     w_log := w_log w; w_handles := h; w_waits := w_waits w; w_envok := w_envok w; w_wire := w_wire w; w_poison := w_poison w |}.
 
 Definition upd_waits (w : world) (n : N) : world :=
   {| w_sess := w_sess w; w_conn := w_conn w; w_live := w_live w; w_event := w_event w; w_now := w_now w; w_inq := w_inq w;
      w_last_arrival := w_last_arrival w; w_txbuf := w_txbuf w; w_script := w_script w; w_broker := w_broker w;
-     w_log := w_log w; w_handles := w_handles w; w_waits := n; w_envok := w_envok w |}.
+     w_log := w_log w; w_handles := w_handles w; w_waits := n; w_envok := w_envok w; w_wire := w_wire w; w_poison := w_poison w |}.
 
 Definition upd_envok (w : world) (b : bool) : world :=
   {| w_sess := w_sess w; w_conn := w_conn w; w_live := w_live w; w_event := w_event w; w_now := w_now w; w_inq := w_inq w;
      w_last_arrival := w_last_arrival w; w_txbuf := w_txbuf w; w_script := w_script w; w_broker := w_broker w;
-     w_log := w_log w; w_handles := w_handles w; w_waits := w_waits w; w_envok := b |}.
+     w_log := w_log w; w_handles := w_handles w; w_waits := w_waits w; w_envok := b; w_wire := w_wire w; w_poison := w_poison w |}.
+
+Definition upd_wire (w : world) (b : bytes) : world :=
+  {| w_sess := w_sess w; w_conn := w_conn w; w_live := w_live w; w_event := w_event w; w_now := w_now w; w_inq := w_inq w;
+     w_last_arrival := w_last_arrival w; w_txbuf := w_txbuf w; w_script := w_script w; w_broker := w_broker w;
+     w_log := w_log w; w_handles := w_handles w; w_waits := w_waits w; w_envok := w_envok w; w_wire := b; w_poison := w_poison w |}.
+Definition upd_poison (w : world) (b : bool) : world :=
+  {| w_sess := w_sess w; w_conn := w_conn w; w_live := w_live w; w_event := w_event w; w_now := w_now w; w_inq := w_inq w;
+     w_last_arrival := w_last_arrival w; w_txbuf := w_txbuf w; w_script := w_script w; w_broker := w_broker w;
+     w_log := w_log w; w_handles := w_handles w; w_waits := w_waits w; w_envok := w_envok w; w_wire := w_wire w; w_poison := b |}.
 
 Definition MAX_WAITS : N := 64.        (* an operation that has waited this often is dropped by the application *)
 Definition STUTTER_MS : N := 100.      (* re-poll interval while the awaited deadline has already expired *)
@@ -160,7 +173,7 @@ Definition io_write (bs : bytes) (w : world) : world * wres :=
   else
     let n := N.min (N.max amt 1) len in
     let acc := takeN n bs in
-    (broker_feed (upd_log w1 (pre ++ show_N n ++ s2t " " ++ hex acc)) acc, WOk n).
+    (broker_feed (upd_wire (upd_log w1 (pre ++ show_N n ++ s2t " " ++ hex acc)) (w_wire w1 ++ acc)) acc, WOk n).
 
 Inductive flres := FlOk | FlFail | FlCancel.
 Definition io_flush (w : world) : world * flres :=
@@ -232,6 +245,12 @@ Arguments OFail {A} e.
 Arguments OCancel {A}.
 Arguments OFuel {A}.
 Arguments OPanic {A}.
+
+(* ghost bookkeeping for C01: a direct write (QoS 0 PUBLISH, DISCONNECT) that stops after some but not all of its
+   bytes, with the handle staying live, leaves a partial packet nobody owns *)
+Definition mark_partial (before after : world) (len : N) : world :=
+  let k := lenN (w_wire after) - lenN (w_wire before) in
+  if (0 <? k) && (k <? len) then upd_poison after true else after.
 
 (* write_all (outbound.rs): direct writes of CONNECT, QoS 0 PUBLISH and DISCONNECT *)
 Fixpoint write_all (fuel : nat) (bs : bytes) (w : world) : world * outcome unit :=
@@ -476,9 +495,10 @@ Definition finish_mid (fuel : nat) (w : world) (m : midres) : world * outcome (o
       (* QoS 0: write_all then flush; WriteZero does not latch, transport errors do *)
       let '(w1, r) := write_all fuel bs w in
       match r with
-      | OFail EWriteZero => (w1, OFail EWriteZero)
+      | OFail EWriteZero => (mark_partial w w1 (lenN bs), OFail EWriteZero)
       | OFail e => (w_hd w1, OFail e)
-      | OCancel => (w1, OCancel) | OFuel => (w1, OFuel) | OPanic => (w1, OPanic)
+      | OCancel => (mark_partial w w1 (lenN bs), OCancel)
+      | OFuel => (mark_partial w w1 (lenN bs), OFuel) | OPanic => (mark_partial w w1 (lenN bs), OPanic)
       | ODone _ =>
           let '(w2, fr) := io_flush w1 in
           match fr with
@@ -520,9 +540,12 @@ Definition op_disconnect (fuel : nat) (d : disconnect_req) (w : world) : world *
   match disconnect_prepare (w_sess w) d with
   | DPErr e => (w, OFail e)
   | DPOk bs =>
+      (* ghost: disconnect() does not drain pending work; if a queued packet is half written the DISCONNECT lands inside it *)
+      let w := if has_partial (s_ob (w_sess w)) then upd_poison w true else w in
       let '(w1, r) := write_all fuel bs w in
       match r with
-      | OCancel => (w1, OCancel) | OFuel => (w1, OFuel) | OPanic => (w1, OPanic)
+      | OCancel => (mark_partial w w1 (lenN bs), OCancel)
+      | OFuel => (mark_partial w w1 (lenN bs), OFuel) | OPanic => (mark_partial w w1 (lenN bs), OPanic)
       | OFail e => (w_hd w1, OFail e)
       | ODone _ =>
           let '(w2, fr) := io_flush w1 in
